@@ -50,7 +50,7 @@ def parseFontSpec (s : String) : Option MonoFont :=
            stOff := parseNat so, stH := parseNat sh, index := m.index }
   | _ => none
 
-def parseOptColor (s : String) : Option Color := if s == "-" then none else some (parseNat s)
+private def parseOptColor (s : String) : Option Color := if s == "-" then none else some (parseNat s)
 
 def parseDeco (s : String) : DecoColor :=
   if s == "n" then .none else if s == "t" then .textColor else .custom (parseNat s)
